@@ -29,13 +29,19 @@
 (*   the universe (Init, constant): attr[s] = direction and size class of   *)
 (*     HTLC slot s (big: an output on every commitment, small: dust on      *)
 (*     every commitment, mid: an output on the commitment with the lower    *)
-(*     dust limit only - lowL says whether that is ours), amounts increase  *)
+(*     dust limit only - lowL says whether that is ours -, edge: an output  *)
+(*     on a commitment at the initial fee rate, trimmed on a commitment at  *)
+(*     the raised fee rate, where mid is trimmed everywhere), amounts increase *)
 (*     with (size class, slot), so the output index of an HTLC on a         *)
 (*     commitment is its rank among that commitment's HTLC outputs;         *)
 (*   the link (channel state machine, "A" = us, "B" = the peer):            *)
 (*     sent / rmv (update logs: add sent, removal sent and how),            *)
 (*     addOn[k] / remOn[k] (the adds / removals that commitment k carries,  *)
 (*     k in L = ours, R = the peer's current, P = the peer's pending),      *)
+(*     feeSent / feeOn[k] (we, the funder, sent update_fee raising the fee  *)
+(*     rate; the commitments that are built at the raised rate - the trim   *)
+(*     threshold of a commitment moves with its fee rate, so R and P may    *)
+(*     disagree about an HTLC being dust),                                  *)
 (*     hasP (a signed, not yet revoked-into commitment of the peer exists:  *)
 (*     OpenChannel.RemoteCommitChainTip);                                   *)
 (*   the chain: spent (which commitment transaction spent the funding       *)
@@ -51,6 +57,7 @@
 (*                                                                          *)
 (* Actions, one per critical section:                                       *)
 (*   AAdd BAdd ARemove BRemove       update_add / fail / fulfill sent        *)
+(*   AFee         we send update_fee (only the funder may: lowL universes)  *)
 (*   ASign        we sign the peer's next commitment (P appears)            *)
 (*   BRevoke      the peer revokes (P becomes R)                            *)
 (*   BSign        the peer signs ours and we revoke (L advances)            *)
@@ -81,6 +88,25 @@
 (*                           as the peer's current commitment;              *)
 (*   RelaunchUsesAllSets     relaunchResolvers builds its outpoint -> HTLC  *)
 (*                           map from all three sets of the CommitSet.      *)
+(*                                                                          *)
+(* Binding to the code (follow-up b12d):                                    *)
+(*   ChainActionsConfMC    exhaustive check (2 slots) + the two controls    *)
+(*   ChainActionsConfGen   Spec + history: TLC -simulate writes one         *)
+(*                         schedule per behaviour (link steps, Spend, Close,*)
+(*                         then Restart / Expire / Claim / TimeoutSpend)    *)
+(*   harness/contractcourt/c12_conf_test.go replays each schedule on a REAL *)
+(*                         lnwallet channel pair (the link steps), a real   *)
+(*                         chainWatcher (handleCommitSpend on the spending  *)
+(*                         commitment), a real, started ChannelArbitrator   *)
+(*                         with its resolvers on a real bolt log (restarts  *)
+(*                         re-create it from the log), an outpoint-faithful *)
+(*                         chain notifier                                   *)
+(*   ChainActionsConfTrace validates what was recorded: the ...Do actions   *)
+(*                         take the watcher's key / sets / resolutions, the *)
+(*                         HTLC each relaunched resolver was supplemented   *)
+(*                         with and the HTLC a resolver reported upstream   *)
+(*                         from the recorded line; the property below and   *)
+(*                         the Conform... invariants judge.                 *)
 (***************************************************************************)
 EXTENDS Integers, Sequences, FiniteSets, TLC
 
@@ -88,6 +114,7 @@ CONSTANTS NH,           \* HTLC slots
           Dirs,         \* subset of {"out", "in"}
           Sizes,        \* subset of {"big", "mid", "small"}
           LowLs,        \* subset of BOOLEAN: is ours the commitment with the lower dust limit
+          Fees,         \* BOOLEAN: may the fee rate be raised (AFee)
           MaxRestarts,
           WatcherConfusesPending, RelaunchUsesAllSets
 
@@ -99,14 +126,14 @@ NoRes == [kind |-> "none", for |-> 0, st |-> "none"]
 
 VARIABLES
   attr, lowL,                                  \* the universe
-  sent, rmv, addOn, remOn, hasP,               \* the link
+  sent, rmv, addOn, remOn, hasP, feeSent, feeOn,   \* the link
   spent, expired, claimed, timedOut,           \* the chain
   wkey, wset, wres,                            \* the watcher's close event
   arb, rs, known, restarts,                    \* the arbitrator
   failBacks, settles, closedOut                \* what it did
 
 univars == <<attr, lowL>>
-linkvars == <<sent, rmv, addOn, remOn, hasP>>
+linkvars == <<sent, rmv, addOn, remOn, hasP, feeSent, feeOn>>
 chainvars == <<spent, expired, claimed, timedOut>>
 watchvars == <<wkey, wset, wres>>
 arbvars == <<arb, rs, restarts, failBacks, settles, closedOut>>
@@ -122,10 +149,11 @@ On(k) == IF k = "P" /\ ~hasP THEN {} ELSE addOn[k] \ remOn[k]
 \* trimmed on commitment k (HTLC amount below dust limit + second-level fee of that commitment)
 Dust(s, k) == CASE attr[s].size = "small" -> TRUE
                 [] attr[s].size = "big"   -> FALSE
-                [] OTHER                  -> IF lowL THEN k # "L" ELSE k = "L"
+                [] attr[s].size = "edge"  -> feeOn[k]
+                [] OTHER                  -> feeOn[k] \/ (IF lowL THEN k # "L" ELSE k = "L")
 Outs(k) == {s \in On(k) : ~Dust(s, k)}
 \* BIP 69: outputs ordered by amount; the balances are far larger than any HTLC
-SizeRank(s) == CASE attr[s].size = "small" -> 0 [] attr[s].size = "mid" -> 1 [] OTHER -> 2
+SizeRank(s) == CASE attr[s].size = "small" -> 0 [] attr[s].size = "mid" -> 1 [] attr[s].size = "edge" -> 2 [] OTHER -> 3
 Rank(s) == SizeRank(s) * (NH + 1) + s
 Oix(k, s) == Cardinality({t \in Outs(k) : Rank(t) < Rank(s)})
 Ix(k, s) == IF s \notin On(k) THEN -2 ELSE IF Dust(s, k) THEN -1 ELSE Oix(k, s)
@@ -141,6 +169,7 @@ AttrDomain == {Empty} \cup {[dir |-> d, size |-> z] : d \in Dirs, z \in Sizes}
 
 LinkInit == /\ sent = [s \in Slots |-> FALSE] /\ rmv = [s \in Slots |-> "no"]
             /\ addOn = [k \in Keys |-> {}] /\ remOn = [k \in Keys |-> {}] /\ hasP = FALSE
+            /\ feeSent = FALSE /\ feeOn = [k \in Keys |-> FALSE]
 ChainInit == spent = "none" /\ expired = FALSE /\ claimed = {} /\ timedOut = {}
 WatchInit == wkey = "none" /\ wset = NoSets /\ wres = NoResn
 ArbInit == /\ arb = "Default" /\ rs = [i \in Idx |-> NoRes] /\ restarts = 0
@@ -161,34 +190,41 @@ Locked(s) == s \in On("L") /\ s \in On("R") /\ (hasP => s \in On("P")) /\ rmv[s]
 
 AAdd(s) == /\ Open /\ Out(s) /\ ~sent[s]
            /\ sent' = [sent EXCEPT ![s] = TRUE]
-           /\ UNCHANGED <<univars, rmv, addOn, remOn, hasP, chainvars, watchvars, arbvars, known>>
+           /\ UNCHANGED <<univars, rmv, addOn, remOn, hasP, feeSent, feeOn, chainvars, watchvars, arbvars, known>>
 BAdd(s) == /\ Open /\ In(s) /\ ~sent[s]
            /\ sent' = [sent EXCEPT ![s] = TRUE]
-           /\ UNCHANGED <<univars, rmv, addOn, remOn, hasP, chainvars, watchvars, arbvars, known>>
+           /\ UNCHANGED <<univars, rmv, addOn, remOn, hasP, feeSent, feeOn, chainvars, watchvars, arbvars, known>>
+\* we, the funder, raise the fee rate
+AFee == /\ Open /\ Fees /\ lowL /\ ~feeSent
+        /\ feeSent' = TRUE
+        /\ UNCHANGED <<univars, sent, rmv, addOn, remOn, hasP, feeOn, chainvars, watchvars, arbvars, known>>
 \* we fail a received HTLC
 ARemove(s) == /\ Open /\ In(s) /\ Locked(s)
               /\ rmv' = [rmv EXCEPT ![s] = "fail"]
-              /\ UNCHANGED <<univars, sent, addOn, remOn, hasP, chainvars, watchvars, arbvars, known>>
+              /\ UNCHANGED <<univars, sent, addOn, remOn, hasP, feeSent, feeOn, chainvars, watchvars, arbvars, known>>
 \* the peer fulfills (we learn the preimage) or fails an HTLC we offered
 BRemove(s, how) == /\ Open /\ Out(s) /\ Locked(s) /\ how \in {"settle", "fail"}
                    /\ rmv' = [rmv EXCEPT ![s] = how]
                    /\ known' = [known EXCEPT ![s] = (how = "settle")]
-                   /\ UNCHANGED <<univars, sent, addOn, remOn, hasP, chainvars, watchvars, arbvars>>
+                   /\ UNCHANGED <<univars, sent, addOn, remOn, hasP, feeSent, feeOn, chainvars, watchvars, arbvars>>
 Removed(s) == rmv[s] # "no"
 ASign == /\ Open /\ ~hasP
          /\ addOn' = [addOn EXCEPT !["P"] = {s \in Slots : Out(s) /\ sent[s]} \cup {s \in addOn["L"] : In(s)}]
          /\ remOn' = [remOn EXCEPT !["P"] = {s \in Slots : In(s) /\ Removed(s)} \cup {s \in remOn["L"] : Out(s)}]
          /\ hasP' = TRUE
-         /\ UNCHANGED <<univars, sent, rmv, chainvars, watchvars, arbvars, known>>
+         /\ feeOn' = [feeOn EXCEPT !["P"] = feeSent]
+         /\ UNCHANGED <<univars, sent, rmv, feeSent, chainvars, watchvars, arbvars, known>>
 BRevoke == /\ Open /\ hasP
            /\ addOn' = [addOn EXCEPT !["R"] = addOn["P"]]
            /\ remOn' = [remOn EXCEPT !["R"] = remOn["P"]]
            /\ hasP' = FALSE
-           /\ UNCHANGED <<univars, sent, rmv, chainvars, watchvars, arbvars, known>>
+           /\ feeOn' = [feeOn EXCEPT !["R"] = feeOn["P"]]
+           /\ UNCHANGED <<univars, sent, rmv, feeSent, chainvars, watchvars, arbvars, known>>
 BSign == /\ Open
          /\ addOn' = [addOn EXCEPT !["L"] = {s \in Slots : In(s) /\ sent[s]} \cup {s \in addOn["R"] : Out(s)}]
          /\ remOn' = [remOn EXCEPT !["L"] = {s \in Slots : Out(s) /\ Removed(s)} \cup {s \in remOn["R"] : In(s)}]
-         /\ UNCHANGED <<univars, sent, rmv, hasP, chainvars, watchvars, arbvars, known>>
+         /\ feeOn' = [feeOn EXCEPT !["L"] = feeOn["R"]]
+         /\ UNCHANGED <<univars, sent, rmv, hasP, feeSent, chainvars, watchvars, arbvars, known>>
 
 -----------------------------------------------------------------------------
 (* The chain watcher                                                         *)
@@ -295,7 +331,7 @@ TimeoutDo(i, s) ==
 TimeoutSpend(i) == TimeoutDo(i, rs[i].for)
 
 LinkNext == \/ \E s \in Slots : AAdd(s) \/ BAdd(s) \/ ARemove(s) \/ BRemove(s, "settle") \/ BRemove(s, "fail")
-            \/ ASign \/ BRevoke \/ BSign
+            \/ ASign \/ BRevoke \/ BSign \/ AFee
 Next == \/ LinkNext
         \/ \E c \in Keys : Spend(c)
         \/ Close \/ Restart \/ Expire
